@@ -251,6 +251,7 @@ func (e *Engine) verifyFunc(fn *ssa.Function, classes map[string]bool) (vc *VC) 
 	}
 	res, out := f.run(st, params, bindings)
 	_ = res
+	e.readsObligations(f, st)
 	// COVER (b): the exit is reachable
 	if o := vc.oblige(out, "COVER", name, "exit reachable", fn.Pos(), False); o != nil {
 		o.Extra = map[string]string{"expect": "sat"}
@@ -631,4 +632,69 @@ func (f *Frame) resolveLocalAt(name string, st *State) (Val, bool) {
 		}
 	}
 	return f.val(v), true
+}
+
+// readsObligations: reads-each clauses. The obligation for field F holds iff
+// the body of the function (callees are not followed) loads field F of a value
+// of the named struct type: a key function that never reads a field cannot
+// distinguish two values that differ only in that field.
+func (e *Engine) readsObligations(f *Frame, st *State) {
+	if f.spec == nil || !f.vc.want("READS") {
+		return
+	}
+	for _, et := range f.spec.Reads {
+		pkg := e.typesPkgByName(f.spec.Pkg)
+		tn := et.Type
+		if i := strings.Index(tn, "."); i >= 0 {
+			pkg = e.typesPkgByName(tn[:i])
+			tn = tn[i+1:]
+		}
+		if pkg == nil || pkg.Scope().Lookup(tn) == nil {
+			f.unsupported("reads-each: unknown type %s", et.Type)
+			continue
+		}
+		named := pkg.Scope().Lookup(tn).Type()
+		stt, ok := named.Underlying().(*types.Struct)
+		if !ok {
+			f.unsupported("reads-each: %s is not a struct", et.Type)
+			continue
+		}
+		read := map[int]bool{}
+		for _, b := range f.fn.Blocks {
+			for _, in := range b.Instrs {
+				switch x := in.(type) {
+				case *ssa.FieldAddr:
+					if pt, ok := x.X.Type().Underlying().(*types.Pointer); ok && types.Identical(pt.Elem(), named) {
+						read[x.Field] = true
+					}
+				case *ssa.Field:
+					if types.Identical(x.X.Type(), named) {
+						read[x.Field] = true
+					}
+				}
+			}
+		}
+		for i := 0; i < stt.NumFields(); i++ {
+			fld := stt.Field(i)
+			if isProtoInternalField(fld) || et.Except[fld.Name()] {
+				continue
+			}
+			k := fieldKind(fld.Type())
+			match := false
+			for _, want := range et.Kinds {
+				if want == k || want == "all" {
+					match = true
+				}
+			}
+			if !match {
+				continue
+			}
+			label := strings.ReplaceAll(et.Label, "$f", fld.Name())
+			goal := False
+			if read[i] {
+				goal = True2()
+			}
+			f.oblige(st, "READS", label+": the function reads field "+fld.Name()+" of "+et.Type+" (a field it never reads cannot influence its result)", f.fn.Pos(), goal)
+		}
+	}
 }
